@@ -242,8 +242,28 @@ class P:
         raise ParseError("unexpected token %r at %d" % (t, self.i - 1))
 
 
-def parse_expr(sql, dialect):
+def parse_expr(sql, dialect, values=None):
+    """values: the parameter list of a parameterised rendering; the i-th placeholder then parses as that value (an atom)"""
     toks = lex(sql, dialect)
+    if values is not None:
+        from mc.lexer import Tok
+
+        out, i = [], 0
+        for t in toks:
+            if t.kind == "PAR":
+                if i >= len(values):
+                    raise ParseError("more placeholders than values")
+                v = values[i]
+                i += 1
+                if isinstance(v, bool) or v is None or not isinstance(v, (int, float, str)):
+                    out.append(t)
+                else:
+                    out.append(Tok("STR" if isinstance(v, str) else "NUM", t.text, v, t.start, t.end))
+            else:
+                out.append(t)
+        if i != len(values):
+            raise ParseError("more values than placeholders")
+        toks = out
     if any(t.kind == "COM" for t in toks):
         raise ParseError("comment token inside expression (operator fusion): %r" % [t.text for t in toks if t.kind == "COM"])
     p = P(toks)
